@@ -19,7 +19,7 @@ RULE = ("random histories over a population of <= 8 histograms (1D static/gapped
         "be bit-identical afterwards; non-trivial = history with >= 1 derivation and >= 1 later mutation that changed the bins of the "
         "mutated object (adaptive growth / merge); distinct by hash of the operation log")
 ASSUMPTIONS = [
-    "identity selections returning self, collection members sharing one binning and construction from a user-supplied binning object share state by design and are not generated",
+    "identity selections returning self and construction from a user-supplied binning object share state by design and are not generated (collection members and copies, sums of one, mutable metadata values are)",
     "snapshots read public attributes only",
 ]
 
